@@ -17,16 +17,28 @@
     dispatcher ids this is lifted to any number of links interleaved in any order.
   * `conforming_words_never_ambiguous`: a payload word sequence the documented diagram accepts
     is never classified as one of the ambiguity errors (no [E990]/[E991]/[E992]).
-  PARTIAL: `check all its-stave` (the ALPIDE frame rules on grammar streams) is not yet covered
-  by a theorem; it is decided by the conforming-stream oracle on the real binary (all five modes
-  × mute and -E × file/pipe) and by exact model/implementation agreement. The oracle also asks the
-  driver (`conf`) whether every generated link is inside the grammar, so the streams tested are
-  streams the theorem speaks about.
+  * `conforming_stave_accepted` / `conforming_stave_stream_accepted`: in `check all its-stave` a FEE
+    ID's packets that follow the protocol grammar and whose readout frames follow the frame grammar
+    of `Spec.ProtocolStave` (lane set of the barrel; per lane a well-formed ALPIDE event sequence
+    with arbitrary hit content, no chip id twice, one common bunch counter; inner barrel: one chip
+    per lane, chip id = lane) produce ALPIDE statistics messages only, never an error
+    (`Proofs.StaveConforming`, `Proofs.StaveFrame`, with C13 `decode_encode`).
+  * `conforming_input_clean`, `conforming_input_clean_stave`: the whole run — scanner (C03), all
+    validators without panic (C04), collector, display, exit status — ends with zero errors, no
+    fatal error, nothing displayed and exit status 0, also with `-E`, any filter, file or pipe.
+  * `conforming_words_never_ambiguous`: a payload word sequence the documented diagram accepts
+    is never classified as one of the ambiguity errors (no [E990]/[E991]/[E992]).
+  What the theorems quantify over is the Lean grammar; that the streams of the conforming-stream
+  oracle (real binary, five modes × mute and -E × file/pipe) are inside that grammar is checked on
+  every run by the driver request `conf` (non-stave part of the grammar).
 -/
 import FastPasta.Props.C09
 import FastPasta.Props.C10
 import FastPasta.Proofs.ItsConforming
 import FastPasta.Props.C06
+import FastPasta.Props.C04
+import FastPasta.Proofs.ScanCount
+import FastPasta.Proofs.StaveConforming
 namespace FastPasta
 namespace C01
 
@@ -359,8 +371,344 @@ theorem conforming_stream_accepted (cfg : CheckCfg) (hits : cfg.itsChecks = true
   rw [find_of_nodup d hn x hx] at hpart
   exact hpart.symm
 
+/-! ### stave level (`check all its-stave`): grammar + frame grammar ⇒ only statistics, no error -/
+
+/-- a link (one FEE ID) conforms at stave level: as `ConformingLink`, and every readout frame
+    satisfies the frame grammar of `Spec.ProtocolStave` for the barrel of the link's FEE ID -/
+def ConformingStaveLink (cfg : CheckCfg) (id0 : Nat) (barrel : Barrel) : List Rdh → LSt → FSt → List PktSpec → Prop
+  | _, _, _, [] => True
+  | done, st, fst, x :: xs =>
+    x.hdr.length = 64 ∧ (done = [] → (decodeRdh x.hdr).headerId = id0) ∧
+    C10.RdhSaneSpec id0 true (leNat x.hdr) ∧
+    (cfg.running = true → C10.RunningSpec done (decodeRdh x.hdr)) ∧
+    (done.length = 1 → (decodeRdh x.hdr).pagesCounter = 1) ∧
+    x.pad ≤ 15 ∧ (x.fmt0 = true ↔ (decodeRdh x.hdr).dataFormat = 0) ∧
+    barrelOfFee (decodeRdh x.hdr).feeId = some barrel ∧
+    ∃ st' fst', payloadOk cfg.running (decodeRdh x.hdr) st x.pl = some st' ∧
+      payloadFrames barrel cfg.running st fst x.pl fst' ∧
+      ConformingStaveLink cfg id0 barrel (done ++ [decodeRdh x.hdr]) st' fst' xs
+
+/-- frame bookkeeping of a link validator between packets: the barrel is not yet known before the
+    first packet -/
+structure FrameRelL (barrel : Barrel) (fst : FSt) (s : CdpSt) : Prop where
+  barrel : s.barrel = none ∨ s.barrel = some barrel
+  fatal : s.fatalLanes = none
+  frame : match fst with
+    | none => s.frame = none ∧ s.inFrame = false
+    | some dws => s.inFrame = true ∧ ∃ st, s.frame = some { start := st, lanes := frameLanes dws }
+
+/-- the validator state after `set_current_rdh` in stave mode -/
+def startCdpStave (c : CdpSt) (off : Nat) (r : Rdh) (barrel : Barrel) : CdpSt :=
+  { c with payloadPos := off + 64, wordCount := 0, slot := (if r.dataFormat == 0 then 16 else 10), startOfData := true, rdh := r, barrel := some barrel }
+
+theorem conforming_stave_step (cfg : CheckCfg) (hits : cfg.itsChecks = true) (hc : SCfg cfg)
+    (id0 : Nat) (barrel : Barrel) (done : List Rdh) (s : LinkSt) (st st' : LSt) (fst fst' : FSt)
+    (hinv : LInv cfg id0 done s) (hrel : EndRel cfg.running st.bw st.cdw s.cdp) (hfrel : FrameRelL barrel fst s.cdp)
+    (x : PktSpec) (hlen : x.hdr.length = 64)
+    (hid : done = [] → (decodeRdh x.hdr).headerId = id0)
+    (hsane : C10.RdhSaneSpec id0 true (leNat x.hdr))
+    (hrun : cfg.running = true → C10.RunningSpec done (decodeRdh x.hdr))
+    (hsec : done.length = 1 → (decodeRdh x.hdr).pagesCounter = 1)
+    (hpad : x.pad ≤ 15) (hbar : barrelOfFee (decodeRdh x.hdr).feeId = some barrel)
+    (hpl : payloadOk cfg.running (decodeRdh x.hdr) st x.pl = some st')
+    (hfr : payloadFrames barrel cfg.running st fst x.pl fst') :
+    ∃ s' ms, linkStep cfg s x.packet = .ok (s', ms) ∧ OnlyStats ms ∧ LInv cfg id0 (done ++ [decodeRdh x.hdr]) s' ∧
+      EndRel cfg.running st'.bw st'.cdw s'.cdp ∧ FrameRelL barrel fst' s'.cdp := by
+  have hexp : s.expectId.getD (decodeRdh x.hdr).headerId = id0 := by
+    by_cases hd : done = []
+    · simp [hinv.eid, hd, hid hd]
+    · simp [hinv.eid, hd]
+  have hgood : rdhSanityBad id0 (some 32) (decodeRdh x.hdr) = false :=
+    (C10.sanity_iff x.hdr hlen id0 true).mpr hsane
+  have hw := payload_words cfg.running _ st st' x.pl hpl
+  have hne : ∃ w ws, x.pl.words = w :: ws := by
+    cases hpw : x.pl.words with
+    | nil => cases hx : x.pl <;> simp [hx, Payload.words, Page.words] at hpw
+    | cons w ws => exact ⟨w, ws, rfl⟩
+  obtain ⟨w, ws, hwds⟩ := hne
+  have hnonempty := enc_nonempty x w ws hwds (hw w (by simp [hwds])).1
+  have hcut := cut_payload cfg.running _ st st' x.pl hpl x.fmt0 x.pad hpad
+  have hs0 : setCurrentRdh cfg s.cdp x.offset (decodeRdh x.hdr) = .ok (startCdpStave s.cdp x.offset (decodeRdh x.hdr) barrel) := by
+    unfold setCurrentRdh startCdpStave
+    rcases hfrel.barrel with hb | hb
+    · simp [hc.stave, hb, hbar]
+    · simp [hc.stave, hb]
+  obtain ⟨cdp', hq, hend, hfre⟩ := spayload_sim cfg hc barrel (decodeRdh x.hdr) st st' fst fst' x.pl
+    (startCdpStave s.cdp x.offset (decodeRdh x.hdr) barrel)
+    ⟨hrel.fsm, hrel.cdw⟩ ⟨rfl, hfrel.fatal, hfrel.frame⟩ rfl rfl hpl hfr
+  obtain ⟨m3, hq, hos⟩ := hq
+  have hpc : payloadChecks cfg s.cdp x.offset (decodeRdh x.hdr) x.payloadBytes = .ok (cdp', m3) := by
+    unfold payloadChecks
+    simp only [hs0]
+    unfold PktSpec.payloadBytes
+    simp only [hcut]
+    exact hq
+  have hfre' : FrameRelL barrel fst' cdp' := ⟨Or.inr hfre.barrel, hfre.fatal, hfre.frame⟩
+  unfold linkStep PktSpec.packet
+  simp only [hexp, hits, ↓reduceIte, hgood, Bool.false_eq_true, List.nil_append, hnonempty, Bool.not_false, Bool.and_self, hpc]
+  have hr := hc.running
+  obtain ⟨hinv', hflag⟩ := C10.step_inv done s.run (decodeRdh x.hdr) (hinv.run hr) hsec
+  have hnoflag : (runningStep s.run (decodeRdh x.hdr)).2 = false := by
+    cases hcc : (runningStep s.run (decodeRdh x.hdr)).2 with
+    | false => rfl
+    | true => exact absurd (hrun hr) (hflag.mp hcc)
+  simp only [hr, ↓reduceIte, hnoflag, Bool.false_eq_true, List.nil_append]
+  exact ⟨_, _, rfl, hos, ⟨by simp, fun _ => hinv'⟩, by rw [hr] at hend; exact hend, hfre'⟩
+
+theorem conforming_stave_run (cfg : CheckCfg) (hits : cfg.itsChecks = true) (hc : SCfg cfg)
+    (id0 : Nat) (barrel : Barrel) (xs : List PktSpec) :
+    ∀ (done : List Rdh) (s : LinkSt) (st : LSt) (fst : FSt), LInv cfg id0 done s →
+      EndRel cfg.running st.bw st.cdw s.cdp → FrameRelL barrel fst s.cdp →
+      ConformingStaveLink cfg id0 barrel done st fst xs →
+      ∃ s' ms, linkRun cfg s (xs.map PktSpec.packet) = .ok (s', ms) ∧ OnlyStats ms := by
+  induction xs with
+  | nil => intro done s st fst _ _ _ _; exact ⟨s, [], rfl, OnlyStats.nil⟩
+  | cons x xs ih =>
+    intro done s st fst hinv hrel hfrel hcn
+    obtain ⟨h1, h2, h3, h4, h5, h6, _, h7, st', fst', h8, h9, h10⟩ := hcn
+    obtain ⟨s1, m1, hstep, hos1, hinv1, hrel1, hfrel1⟩ :=
+      conforming_stave_step cfg hits hc id0 barrel done s st st' fst fst' hinv hrel hfrel x h1 h2 h3 h4 h5 h6 h7 h8 h9
+    obtain ⟨s2, m2, hrest, hos2⟩ := ih _ s1 st' fst' hinv1 hrel1 hfrel1 h10
+    exact ⟨s2, m1 ++ m2, by simp [linkRun, hstep, hrest], hos1.append hos2⟩
+
+/-- **C01 (stave level, `check all its-stave`)**: a FEE ID's packets that follow the protocol
+    grammar and whose readout frames follow the frame grammar (lane set of the barrel, well-formed
+    ALPIDE lane data with arbitrary hit content, one chip per inner-barrel lane with chip id =
+    lane, a common bunch counter) produce ALPIDE statistics messages only — never an error. -/
+theorem conforming_stave_accepted (cfg : CheckCfg) (hits : cfg.itsChecks = true) (hc : SCfg cfg)
+    (hver : cfg.customRdhVersion = none) (id0 : Nat) (barrel : Barrel) (xs : List PktSpec)
+    (hcn : ConformingStaveLink cfg id0 barrel [] {} none xs) :
+    ∃ s' ms, linkRun cfg (LinkSt.init cfg) (xs.map PktSpec.packet) = .ok (s', ms) ∧ OnlyStats ms :=
+  conforming_stave_run cfg hits hc id0 barrel xs [] (LinkSt.init cfg) {} none
+    ⟨by simp [LinkSt.init, hver], fun _ => C10.init_inv⟩
+    ⟨Or.inl rfl, fun _ => rfl⟩ ⟨Or.inl rfl, rfl, rfl, rfl⟩ hcn
+
+/-- … for any number of FEE IDs interleaved in any order -/
+theorem conforming_stave_stream_accepted (cfg : CheckCfg) (hits : cfg.itsChecks = true) (hc : SCfg cfg)
+    (hver : cfg.customRdhVersion = none) (ps : List Packet)
+    (hconf : ∀ i, ∃ (id0 : Nat) (barrel : Barrel) (xs : List PktSpec),
+      C06.ofId cfg i ps = xs.map PktSpec.packet ∧ ConformingStaveLink cfg id0 barrel [] {} none xs)
+    (d : DispSt) (h : runValidators cfg [] ps = .ok d) : OnlyStats d.allMsgs := by
+  have hn := run_ids_nodup cfg ps [] d (by simp) h
+  intro m hm
+  unfold DispSt.allMsgs at hm
+  simp only [List.mem_flatMap] at hm
+  obtain ⟨x, hx, hmx⟩ := hm
+  have hpart := C06.dispatch_partition cfg ps d h x.1
+  obtain ⟨id0, barrel, xs, hof, hcn⟩ := hconf x.1
+  obtain ⟨s', ms, hrun, hos⟩ := conforming_stave_accepted cfg hits hc hver id0 barrel xs hcn
+  unfold C06.alone at hpart
+  rw [hof, hrun] at hpart
+  simp only [Except.ok.injEq] at hpart
+  unfold DispSt.msgsOf at hpart
+  rw [find_of_nodup d hn x hx] at hpart
+  simp only at hpart
+  rw [← hpart] at hmx
+  exact hos m hmx
+
+/-! ### the whole run: no error, nothing displayed, exit status 0 -/
+
+/-- statistics that are neither an error nor fatal -/
+def _root_.FastPasta.Stat.quiet : Stat → Bool
+  | .error _ | .fatal _ => false
+  | _ => true
+
+theorem step_quiet (cap : Nat) (c : Coll) (m : Stat) (h : m.quiet = true) :
+    (c.step cap m).total = c.total ∧ (c.step cap m).fatal = c.fatal ∧ (c.step cap m).errors = c.errors := by
+  cases m <;> simp [Stat.quiet] at h <;> simp [Coll.step] <;> (repeat' split) <;> simp
+
+theorem run_quiet (cap : Nat) (ms : List Stat) (h : ∀ m ∈ ms, m.quiet = true) : ∀ c : Coll,
+    (Coll.run cap c ms).total = c.total ∧ (Coll.run cap c ms).fatal = c.fatal ∧ (Coll.run cap c ms).errors = c.errors := by
+  induction ms with
+  | nil => intro c; exact ⟨rfl, rfl, rfl⟩
+  | cons m ms ih =>
+    intro c
+    obtain ⟨a1, a2, a3⟩ := step_quiet cap c m (h m (by simp))
+    obtain ⟨b1, b2, b3⟩ := ih (fun x hx => h x (by simp [hx])) (c.step cap m)
+    simp only [Coll.run, List.foldl_cons] at b1 b2 b3 ⊢
+    exact ⟨b1.trans a1, b2.trans a2, b3.trans a3⟩
+
+theorem analysis_quiet (pk : List Packet)
+    (hsys : ∀ q qs, pk = q :: qs → validSystemIds.contains q.rdh.systemId = true) :
+    ∀ m ∈ analysisMsgs pk, m.quiet = true := by
+  intro m hm
+  unfold analysisMsgs at hm
+  split at hm
+  · simp at hm
+  · rename_i p0 rest
+    have hv := hsys p0 rest rfl
+    simp only [List.mem_flatMap] at hm
+    obtain ⟨b, _, hm⟩ := hm
+    unfold analysisBatch at hm
+    simp only [hv, ↓reduceIte, List.mem_append, List.mem_flatMap, List.mem_singleton] at hm
+    rcases hm with ⟨p, _, hm⟩ | rfl
+    · rcases hm with rfl | hm
+      · rfl
+      · split at hm
+        · simp only [List.mem_singleton] at hm; subst hm; rfl
+        · simp at hm
+    · rfl
+
+theorem scan_stats_quiet (ms : List InMsg) (h : C03.AllBenign (fun v => validSystemIds.contains v) ms) :
+    ∀ m ∈ ms.flatMap inMsgToStat, m.quiet = true := by
+  intro m hm
+  simp only [List.mem_flatMap] at hm
+  obtain ⟨x, hx, hm⟩ := hm
+  have hb := h x hx
+  cases x <;> simp only [InMsg.benign] at hb <;> simp only [inMsgToStat, List.mem_singleton] at hm
+  all_goals first
+    | (subst hm; rfl)
+    | (simp only [hb, ↓reduceIte, List.mem_singleton] at hm; subst hm; rfl)
+    | (simp at hb)
+
+/-- the run-level glue: if the validators of a check run return normally and emit no error, then a
+    well-framed input with known system ids that passes the start-up gate ends with zero errors,
+    no fatal error, nothing displayed and exit status 0 -/
+theorem run_clean_of_quiet_validators (o : Opts) (hcmd : o.isCheck = true)
+    (hcd : o.customCdps = none) (hph : o.customPht = none)
+    (ps : List C03.RawPkt) (hwf : ∀ p ∈ ps, C03.WF p)
+    (hlen : ¬ (C03.bytesOf ps).length < 8) (hgate : initGateBad (C03.bytesOf ps) = false)
+    (hsys : ∀ p ∈ ps, validSystemIds.contains p.rdh.systemId = true)
+    (d : DispSt) (hd : runValidators o.checkCfg [] (C03.expected o.scanCfg 0 ps) = .ok d)
+    (hvq : ∀ m ∈ d.allMsgs.map msgToStat, m.quiet = true) :
+    ∃ out, run o (C03.bytesOf ps) = .ok out ∧ out.initErr = false ∧ out.fin.total = 0 ∧
+      out.fin.coll.fatal = none ∧ out.fin.errors = [] ∧ out.shown = [] ∧ out.exit = 0 := by
+  have hpk : (scanAll o.scanCfg (C03.bytesOf ps)).packets = C03.expected o.scanCfg 0 ps := C03.scan_exact o.scanCfg ps hwf
+  have hben := C03.scanLoop_benign (fun v => validSystemIds.contains v) o.scanCfg [] (by simp) ps.length ps (Nat.le_refl _) hwf hsys
+    { rest := C03.bytesOf ps } [] [] (by simp) C03.AllBenign.nil
+  have hdel : ∀ q qs, C03.expected o.scanCfg 0 ps = q :: qs → validSystemIds.contains q.rdh.systemId = true := by
+    intro q qs he
+    have hq : q ∈ C03.expected o.scanCfg 0 ps := by rw [he]; simp
+    simp only [C03.expected, List.mem_map, List.mem_filter] at hq
+    obtain ⟨x, ⟨hx, _⟩, rfl⟩ := hq
+    have : x.2 ∈ ps := by
+      have key : ∀ (l : List C03.RawPkt) o', x ∈ C03.chain o' l → x.2 ∈ l := by
+        intro l
+        induction l with
+        | nil => intro o' h; simp [C03.chain] at h
+        | cons a as ih =>
+          intro o' h
+          simp only [C03.chain, List.mem_cons] at h
+          rcases h with rfl | h
+          · simp
+          · exact List.mem_cons_of_mem _ (ih _ h)
+      exact key ps 0 hx
+    exact hsys _ this
+  have hinit : (decide ((C03.bytesOf ps).length < 8) || initGateBad (C03.bytesOf ps)) = false := by simp [hlen, hgate]
+  have hview : o.isView = false := by
+    simp only [Opts.isCheck, Bool.or_eq_true, beq_iff_eq] at hcmd
+    rcases hcmd with h | h <;> simp [Opts.isView, h]
+  have hrun : ∃ out, run o (C03.bytesOf ps) = .ok out ∧ out.initErr = false ∧
+      out.fin = finalize o.mute o.customCdps o.customPht
+        (Coll.run o.cap (if (o.isCheck && o.target == Target.itsStave) = true then { alpide := some {} } else {})
+          ([Stat.rdhVersion (bAt (C03.bytesOf ps) 0)] ++ analysisMsgs (C03.expected o.scanCfg 0 ps) ++
+            d.allMsgs.map msgToStat ++ (scanAll o.scanCfg (C03.bytesOf ps)).msgs.flatMap inMsgToStat)) ∧
+      out.shown = displayed o.mute o.codeFilter o.cap out.fin ∧
+      out.exit = exitCode false o.anyErrCode out.fin false := by
+    unfold run
+    simp only [hinit, Bool.false_eq_true, ↓reduceIte, hcmd, hpk, hd, Bool.true_or, hview]
+    exact ⟨_, rfl, rfl, rfl, rfl, rfl⟩
+  obtain ⟨out, hout, hie, hfin, hshown, hexit⟩ := hrun
+  refine ⟨out, hout, hie, ?_⟩
+  have hq : ∀ m ∈ [Stat.rdhVersion (bAt (C03.bytesOf ps) 0)] ++ analysisMsgs (C03.expected o.scanCfg 0 ps) ++
+      d.allMsgs.map msgToStat ++ (scanAll o.scanCfg (C03.bytesOf ps)).msgs.flatMap inMsgToStat, m.quiet = true := by
+    intro m hm
+    simp only [List.mem_append, List.mem_singleton] at hm
+    rcases hm with ((rfl | hm) | hm) | hm
+    · rfl
+    · exact analysis_quiet _ hdel m hm
+    · exact hvq m hm
+    · simp only [scanAll, List.flatMap_append, List.mem_append] at hm
+      rcases hm with hm | hm
+      · exact scan_stats_quiet _ hben m hm
+      · simp only [List.flatMap_cons, List.flatMap_nil, inMsgToStat, List.append_nil, List.cons_append, List.nil_append,
+          List.mem_cons, List.not_mem_nil, or_false] at hm
+        rcases hm with rfl | rfl | rfl <;> rfl
+  obtain ⟨t1, t2, t3⟩ := run_quiet o.cap _ hq
+    (if (o.isCheck && o.target == Target.itsStave) = true then { alpide := some {} } else {})
+  have htot0 : (if (o.isCheck && o.target == Target.itsStave) = true then ({ alpide := some {} } : Coll) else {}).total = 0 := by split <;> rfl
+  have hfat0 : (if (o.isCheck && o.target == Target.itsStave) = true then ({ alpide := some {} } : Coll) else {}).fatal = none := by split <;> rfl
+  have herr0 : (if (o.isCheck && o.target == Target.itsStave) = true then ({ alpide := some {} } : Coll) else {}).errors = [] := by split <;> rfl
+  rw [htot0] at t1; rw [hfat0] at t2; rw [herr0] at t3
+  have hcustom : ∀ c, customStatErrors o.customCdps o.customPht c = [] := by
+    intro c; simp [customStatErrors, hcd, hph]
+  have h1 : out.fin.total = 0 := by rw [hfin]; simp only [finalize, hcustom, List.length_nil, Nat.add_zero]; exact t1
+  have h2 : out.fin.coll.fatal = none := by rw [hfin]; simp only [finalize]; exact t2
+  have h3 : out.fin.errors = [] := by rw [hfin]; simp only [finalize, t3]; rfl
+  refine ⟨h1, h2, h3, ?_, ?_⟩
+  · rw [hshown]; simp [displayed, h1]
+  · rw [hexit]; simp only [exitCode, Bool.false_eq_true, ↓reduceIte, h1, h2]
+    cases o.anyErrCode <;> simp
+
+/-- **C01 (whole run, `check sanity its` / `check all its`)**: a well-framed input that passes the
+    start-up gate, whose packets carry known system ids and whose links (the packets delivered
+    for each link id, in their own order) each follow the protocol grammar, is processed without
+    panic, with zero errors, no fatal error, nothing to display, and exit status 0 — also when an
+    any-errors exit code is configured, with or without a filter, muted or not, from file or pipe. -/
+theorem conforming_input_clean (o : Opts) (hcmd : o.isCheck = true) (htgt : o.target = .its)
+    (htp : o.triggerPeriod = none) (hver : o.customRdhVersion = none)
+    (hcd : o.customCdps = none) (hph : o.customPht = none)
+    (ps : List C03.RawPkt) (hwf : ∀ p ∈ ps, C03.WF p)
+    (hlen : ¬ (C03.bytesOf ps).length < 8) (hgate : initGateBad (C03.bytesOf ps) = false)
+    (hsys : ∀ p ∈ ps, validSystemIds.contains p.rdh.systemId = true)
+    (hconf : ∀ i, ∃ (id0 : Nat) (xs : List PktSpec),
+      C06.ofId o.checkCfg i (C03.expected o.scanCfg 0 ps) = xs.map PktSpec.packet ∧ ConformingLink o.checkCfg id0 [] {} xs) :
+    ∃ out, run o (C03.bytesOf ps) = .ok out ∧ out.initErr = false ∧ out.fin.total = 0 ∧
+      out.fin.coll.fatal = none ∧ out.fin.errors = [] ∧ out.shown = [] ∧ out.exit = 0 := by
+  have hits : o.checkCfg.itsChecks = true := by simp [Opts.checkCfg, CheckCfg.itsChecks, htgt]
+  have hst : o.checkCfg.stave = false := by simp [Opts.checkCfg, CheckCfg.stave, htgt]
+  obtain ⟨d, hd⟩ := C04.no_panic_all_validators_nonstave o.checkCfg hst (C03.expected o.scanCfg 0 ps)
+  have hmsgs : d.allMsgs = [] :=
+    conforming_stream_accepted o.checkCfg hits hst (by simp [Opts.checkCfg, htp]) (by simp [Opts.checkCfg, hver]) _ hconf d hd
+  exact run_clean_of_quiet_validators o hcmd hcd hph ps hwf hlen hgate hsys d hd (by simp [hmsgs])
+
+/-- **C01 (whole run, `check all its-stave`)**: the same for the stave-level checks, for inputs
+    whose FEE IDs all have a valid layer and whose per-FEE-ID packet sequences follow the protocol
+    grammar and the frame grammar (no custom ALPIDE checks configured) -/
+theorem conforming_input_clean_stave (o : Opts) (hcmd : o.cmd = .checkAll) (htgt : o.target = .itsStave)
+    (htp : o.triggerPeriod = none) (hver : o.customRdhVersion = none)
+    (hcd : o.customCdps = none) (hph : o.customPht = none) (halp : o.alpide = {})
+    (ps : List C03.RawPkt) (hwf : ∀ p ∈ ps, C03.WF p)
+    (hlen : ¬ (C03.bytesOf ps).length < 8) (hgate : initGateBad (C03.bytesOf ps) = false)
+    (hsys : ∀ p ∈ ps, validSystemIds.contains p.rdh.systemId = true)
+    (hlayer : ∀ p ∈ C03.expected o.scanCfg 0 ps, (barrelOfFee p.rdh.feeId).isSome = true)
+    (hconf : ∀ i, ∃ (id0 : Nat) (barrel : Barrel) (xs : List PktSpec),
+      C06.ofId o.checkCfg i (C03.expected o.scanCfg 0 ps) = xs.map PktSpec.packet ∧
+      ConformingStaveLink o.checkCfg id0 barrel [] {} none xs) :
+    ∃ out, run o (C03.bytesOf ps) = .ok out ∧ out.initErr = false ∧ out.fin.total = 0 ∧
+      out.fin.coll.fatal = none ∧ out.fin.errors = [] ∧ out.shown = [] ∧ out.exit = 0 := by
+  have hcheck : o.isCheck = true := by simp [Opts.isCheck, hcmd]
+  have hits : o.checkCfg.itsChecks = true := by simp [Opts.checkCfg, CheckCfg.itsChecks, htgt]
+  have hc : SCfg o.checkCfg :=
+    ⟨by simp [Opts.checkCfg, CheckCfg.stave, htgt], by simp [Opts.checkCfg, hcmd], by simp [Opts.checkCfg, htp], by simp [Opts.checkCfg, halp]⟩
+  obtain ⟨d, hd⟩ := C04.runValidators_safe o.checkCfg (C03.expected o.scanCfg 0 ps) (fun _ => hlayer) [] (fun x hx => by simp at hx)
+  have hos := conforming_stave_stream_accepted o.checkCfg hits hc (by simp [Opts.checkCfg, hver]) _ hconf d hd
+  refine run_clean_of_quiet_validators o hcheck hcd hph ps hwf hlen hgate hsys d hd ?_
+  intro m hm
+  simp only [List.mem_map] at hm
+  obtain ⟨x, hx, rfl⟩ := hm
+  have := hos x hx
+  cases x with
+  | error f => simp [Msg.isStats] at this
+  | alpideStats st => rfl
+
 /-! ### non-vacuity: concrete payloads the grammar accepts (kernel-evaluated) -/
 namespace Ex
+/-- an inner-barrel frame: lanes 0, 1, 2, each one chip (id = lane) with bunch counter 0x2A and an
+    empty trailer, zero-filled to the 9 data bytes of its data word -/
+def laneWord (lane : UInt8) : Bytes := [0xA0 + lane, 0x2A, 0xB0, 0, 0, 0, 0, 0, 0, 0x20 + lane]
+example : FrameOk .inner [laneWord 0, laneWord 1, laneWord 2] := by
+  have hfs : frameLanes [laneWord 0, laneWord 1, laneWord 2] =
+      [(0x20, [0xA0, 0x2A, 0xB0, 0, 0, 0, 0, 0, 0]), (0x21, [0xA1, 0x2A, 0xB0, 0, 0, 0, 0, 0, 0]), (0x22, [0xA2, 0x2A, 0xB0, 0, 0, 0, 0, 0, 0])] := by decide
+  refine ⟨by rw [hfs]; simp [lanesOfBarrel, sortNat, List.mergeSort, ibLane], 0x2A, ?_⟩
+  intro f hf
+  rw [hfs] at hf
+  simp only [List.mem_cons, List.not_mem_nil, or_false] at hf
+  rcases hf with rfl | rfl | rfl
+  · exact ⟨[.chip 0 0x2A 0 [], .idle 6], by decide, by intro e he; simp at he; rcases he with rfl | rfl <;> simp [Event.Valid], by decide, by decide, by decide, fun _ => by decide⟩
+  · exact ⟨[.chip 1 0x2A 0 [], .idle 6], by decide, by intro e he; simp at he; rcases he with rfl | rfl <;> simp [Event.Valid], by decide, by decide, by decide, fun _ => by decide⟩
+  · exact ⟨[.chip 2 0x2A 0 [], .idle 6], by decide, by intro e he; simp at he; rcases he with rfl | rfl <;> simp [Event.Valid], by decide, by decide, by decide, fun _ => by decide⟩
+
 def r0 : Rdh := { (default : Rdh) with orbit := 7, bcReserved := 5, triggerType := 0x10, pagesCounter := 0, stopBit := 0 }
 def r1 : Rdh := { r0 with pagesCounter := 1 }
 def rStop : Rdh := { r0 with pagesCounter := 2, stopBit := 1 }
